@@ -201,6 +201,10 @@ class Facade:
         self.reseed(("np", s), which=("np",))
 
     def _unit(self, site, api, size=None):
+        if size is None and site is not None and self.stretch in ("lo", "hi"):
+            v = 0.0 if self.stretch == "lo" else 0.9999999
+            self._log(site, api, v, True)
+            return v
         if size is None and self._over(site):
             v = self.bug.choice(UNIT_POINTS)
             self._log(site, api, v, True)
